@@ -43,6 +43,7 @@ type c14cb struct {
 	done       bool
 	forced     bool // a successful ForceFailover preceded it (promotions only)
 	completed  int  // completed events attributed to it
+	repeat     bool // a successful callback for active while the successful callbacks so far already imply active: not a new promotion
 	roleBefore ha.Role
 }
 
@@ -101,16 +102,22 @@ func (w *c14world) impliedRole(t time.Duration, strict bool) ha.Role {
 }
 
 // partnerReportedDownBefore: the last partner_up/partner_down event strictly
-// before t is a partner_down.
+// before t is a partner_down, and so is the last event up to and including
+// instant t (an event at the very instant t may or may not have reached the
+// controller yet, so it can excuse but never accuse).
 func (w *c14world) partnerReportedDownBefore(t time.Duration) (bool, time.Duration) {
 	down, at := false, time.Duration(0)
+	downIncl := false
 	for _, e := range w.health {
-		if e.at >= t {
+		if e.at > t {
 			break
 		}
-		down, at = e.kind == "partner_down", e.at
+		downIncl = e.kind == "partner_down"
+		if e.at < t {
+			down, at = downIncl, e.at
+		}
 	}
-	return down, at
+	return down && downIncl, at
 }
 
 func (w *c14world) onCallback(newRole ha.Role) error {
@@ -152,6 +159,19 @@ func (w *c14world) onCallback(newRole ha.Role) error {
 		fail = true
 	} else if w.cbFailPct > 0 && c.S.Choose(simrt.StWorkload, 100) >= 100-w.cbFailPct {
 		fail = true
+	}
+	if !fail && newRole == ha.RoleActive {
+		// role implied by the callbacks that succeeded before this one returns (in order of return)
+		prev := ha.RoleStandby
+		for _, o := range w.cbs {
+			if o != cb && o.done && o.ok {
+				prev = o.role
+			}
+		}
+		if prev == ha.RoleActive {
+			cb.repeat = true
+			c.S.Probe("callback_active_repeated_while_active")
+		}
 	}
 	cb.end, cb.done, cb.ok = c.S.Now(), true, !fail
 	w.dirty = true
@@ -238,7 +258,7 @@ func (w *c14world) onFailoverEvent(e ha.FailoverEvent) {
 		// attribute to the oldest successful promotion that has no completed event yet
 		var p, last *c14cb
 		for _, cb := range w.cbs {
-			if cb.done && cb.ok && cb.role == ha.RoleActive {
+			if cb.done && cb.ok && cb.role == ha.RoleActive && !cb.repeat {
 				last = cb
 				if p == nil && cb.completed == 0 {
 					p = cb
@@ -342,6 +362,13 @@ func c14Gen(r *sim.Rand, tier string) *sim.Case {
 	}
 	force := cs.Variant == "force" || cs.Variant == "mixed"
 	cbf := cs.Variant == "cbfail" || cs.Variant == "mixed"
+	if r.P(20) {
+		// motif: promote, let the partner recover, and report it down again while the failback
+		// (timer fired, grace period running) is being carried out
+		cs.Ops = append(cs.Ops, sim.Op{K: "down", A: []int64{int64(r.N(3))}}, sim.Op{K: "sleep", A: []int64{5, 0}}, sim.Op{K: "sleep", A: []int64{8, 2}},
+			sim.Op{K: "up"}, sim.Op{K: "sleep", A: []int64{13, int64(r.N(5))}}, sim.Op{K: "down", A: []int64{int64(r.N(3))}},
+			sim.Op{K: "sleep", A: []int64{8, int64(r.N(5))}})
+	}
 	for i := 0; i < n; i++ {
 		w := []int{8, 8, 14, 2, 0, 0, 0, 0, 2}
 		if force {
@@ -525,14 +552,14 @@ func c14Run(c *sim.Ctx) {
 		c.S.Sleep(10 * time.Millisecond)
 		// each promotion emitted exactly one completed event
 		for _, cb := range w.cbs {
-			if cb.role == ha.RoleActive && cb.done && cb.ok && cb.completed != 1 && c.S.Now()-cb.end > time.Second {
+			if cb.role == ha.RoleActive && cb.done && cb.ok && !cb.repeat && cb.completed != 1 && c.S.Now()-cb.end > time.Second {
 				c.Fail("one-completed-per-promotion", fmt.Sprintf("completed/count-%d", cb.completed), "promotion at %v emitted %d completed events", cb.end, cb.completed)
 			}
 		}
 		_, comp, _, _ := w.fc.Stats()
 		np := 0
 		for _, cb := range w.cbs {
-			if cb.role == ha.RoleActive && cb.done && cb.ok {
+			if cb.role == ha.RoleActive && cb.done && cb.ok && !cb.repeat {
 				np++
 			}
 		}
